@@ -132,9 +132,9 @@ Arguments pi_data {S}. Arguments last_start {S}. Arguments cref {S}. Arguments l
 (* machine = configuration + input queue + tokens delivered so far (newest first, with line) *)
 (* [mcons] is a ghost counter (never read by the semantics): characters taken from the input stream so far,
    minus characters put back (look-ahead stash re-inserted, character-reference un-consumption) *)
-Record mach (S : Type) := mkmach { mc : cfg S; mq : queue; mout : list (token * N * N); mcons : N }.
-Arguments mkmach {S}. Arguments mc {S}. Arguments mq {S}. Arguments mout {S}. Arguments mcons {S}.
-#[export] Instance eta_mach {S} : Settable (mach S) := settable! (@mkmach S) <mc; mq; mout; mcons>.
+Record mach (S Q : Type) := mkmach { mc : cfg S; mq : Q; mout : list (token * N * N); mcons : N }.
+Arguments mkmach {S Q}. Arguments mc {S Q}. Arguments mq {S Q}. Arguments mout {S Q}. Arguments mcons {S Q}.
+#[export] Instance eta_mach {S Q} : Settable (mach S Q) := settable! (@mkmach S Q) <mc; mq; mout; mcons>.
 
 (* what distinguishes the two tokenizers outside their tables *)
 Record flavour (S : Type) := {
@@ -146,8 +146,20 @@ Record flavour (S : Type) := {
 Arguments f_html {S}. Arguments f_data {S}. Arguments f_plaintext {S}. Arguments f_rawdata {S}.
 Arguments f_is_attr_value {S}. Arguments f_charref_emit {S}.
 
+(* The interpreter is parametric in the implementation of the input queue:
+     - the CHUNKED queue (list of buffers; bulk reads stop at buffer joins) mirrors BufferQueue and is what runs
+       against the Rust code;
+     - the FLAT queue with unit runs (one character per bulk read) is the reference semantics of the chunking
+       theorems (TokIR/Chunk.v). *)
 Section Interp.
-Context {S : Type}.
+Context {S Q : Type}.
+Variable Qemp : Q.
+Variable Qnext : Q -> option (N * Q).
+Variable Qpeek : Q -> option N.
+Variable Qpushf : list N -> Q -> Q.       (* push_front; an empty buffer is skipped *)
+Variable Qpushb : Q -> list N -> Q.       (* push_back *)
+Variable Qflat : Q -> list N.
+Variable Qrun : (N -> bool) -> Q -> list N * Q.   (* longest run of non-[stop] characters the queue hands out at once *)
 Variable fl : flavour S.
 Variable tb : table S.
 Variable simd : list N * list N * list N.      (* html Data state: (first-char guard, stop set, newline) ; xml: unused *)
@@ -155,54 +167,72 @@ Variable ent : list N -> option (N * N).        (* web_atoms::NAMED_ENTITIES.get
 Variable c1 : N -> option N.                    (* C1_REPLACEMENTS[n - 0x80] *)
 Variable sk : sinkcfg.
 
-Notation M := (mach S).
+Notation M := (mach S Q).
+
+Fixpoint Qdrop (n : nat) (q : Q) : Q :=
+  match n with
+  | O => q
+  | Datatypes.S n' => match Qnext q with Some (_, q') => Qdrop n' q' | None => Qemp end
+  end.
+(* BufferQueue::eat: need-more on an empty queue, otherwise the prefix comparison of the concatenation *)
+Definition Qeat (ic : bool) (pat : list N) (q : Q) : cmp3 :=
+  match Qpeek q with None => EatNone | Some _ => eat_cmp ic pat (Qflat q) end.
 
 Definition upd (f : cfg S -> cfg S) (m : M) : M := m <| mc ::= f |>.
 Definition emit (t : token) (m : M) : M := m <| mout ::= cons (t, line (mc m), mcons m) |>.
 Definition took (n : N) (m : M) : M := m <| mcons ::= N.add n |>.
 Definition gave (n : N) (m : M) : M := m <| mcons ::= (fun k => k - n) |>.
 Definition lenN (l : list N) : N := N.of_nat (length l).
-Definition unconsume (b : list N) (m : M) : M := gave (lenN b) (m <| mq ::= qpush_front b |>).
+Definition unconsume (b : list N) (m : M) : M := gave (lenN b) (m <| mq ::= Qpushf b |>).
 Definition err (m : M) : M := emit TError m.
 
 (* ---- input primitives *)
+(* get_preprocessed_char, in two parts.
+   1. "if self.ignore_lf { ignore_lf = false; if c == '\n' { c = input.next()? } }" *)
+Definition gpc_skip (c : N) (m : M) : option N * M :=
+  if ignore_lf (mc m) then
+    let m1 := upd (fun x => x <| ignore_lf := false |>) m in
+    if c =? LF then
+      match Qnext (mq m1) with
+      | None => (None, m1)
+      | Some (c', q') => (Some c', took 1 (m1 <| mq := q' |>))
+      end
+    else (Some c, m1)
+  else (Some c, m).
+(* 2. CR -> LF (remember it), line counting (html), NUL -> U+FFFD (xml), bad-character report, current_char.
+   [gpc_decide] computes (resulting char, set ignore_lf?, count a line?, report a bad character?) *)
+Definition gpc_decide (html ex : bool) (c : N) : N * bool * bool * bool :=
+  let is_cr := c =? CR in
+  let c1 := if is_cr then LF else c in
+  let c2 := if negb html && (c1 =? 0) then REPL else c1 in
+  (c2, is_cr, html && (c1 =? LF), ex && bad_char c2).
+Definition gpc_post (c : N) (m1 : M) : N * M :=
+  let '(c', set_il, inc_line, report) := gpc_decide (f_html fl) (exact (mc m1)) c in
+  let m2 := if set_il then upd (fun x => x <| ignore_lf := true |>) m1 else m1 in
+  let m3 := if inc_line then upd (fun x => x <| line ::= N.add 1 |>) m2 else m2 in
+  let m4 := if report then err m3 else m3 in
+  (c', upd (fun x => x <| cur := c' |>) m4).
 Definition get_preprocessed_char (c : N) (m : M) : option N * M :=
-  (* if self.ignore_lf { ignore_lf = false; if c == '\n' { c = input.next()? } } *)
-  let r :=
-    if ignore_lf (mc m) then
-      let m1 := upd (fun x => x <| ignore_lf := false |>) m in
-      if c =? LF then
-        match qnext (mq m1) with
-        | None => (None, m1)
-        | Some (c', q') => (Some c', took 1 (m1 <| mq := q' |>))
-        end
-      else (Some c, m1)
-    else (Some c, m) in
-  match r with
+  match gpc_skip c m with
   | (None, m1) => (None, m1)
-  | (Some c, m1) =>
-    let '(c, m2) := if c =? CR then (LF, upd (fun x => x <| ignore_lf := true |>) m1) else (c, m1) in
-    let m3 := if f_html fl && (c =? LF) then upd (fun x => x <| line ::= N.add 1 |>) m2 else m2 in
-    let c := if negb (f_html fl) && (c =? 0) then REPL else c in
-    let m4 := if exact (mc m3) && bad_char c then err m3 else m3 in
-    (Some c, upd (fun x => x <| cur := c |>) m4)
+  | (Some c, m1) => let '(c', m2) := gpc_post c m1 in (Some c', m2)
   end.
 
 Definition get_char (m : M) : option N * M :=
   if reconsume (mc m) then (Some (cur (mc m)), upd (fun x => x <| reconsume := false |>) m)
-  else match qnext (mq m) with
+  else match Qnext (mq m) with
        | None => (None, m)
        | Some (c, q') => get_preprocessed_char c (took 1 (m <| mq := q' |>))
        end.
 
 Definition peek (m : M) : option N :=
-  if reconsume (mc m) then Some (cur (mc m)) else qpeek (mq m).
+  if reconsume (mc m) then Some (cur (mc m)) else Qpeek (mq m).
 
 (* html: one RAW character; xml: through get_char *)
 Definition discard_char (m : M) : M :=
   if f_html fl then
     if reconsume (mc m) then upd (fun x => x <| reconsume := false |>) m
-    else match qnext (mq m) with
+    else match Qnext (mq m) with
          | Some (_, q') => upd (fun x => x <| ignore_lf := false |>) (took 1 (m <| mq := q' |>))
          | None => upd (fun x => x <| ignore_lf := false |>) m
          end
@@ -220,36 +250,35 @@ Definition pop_except_from (set : list N) (use_simd : bool) (m : M) : popres * M
   if exact (mc m) || reconsume (mc m) || ignore_lf (mc m) then
     match get_char m with (None, m') => (PopNone, m') | (Some c, m') => (PopChar c, m') end
   else
-    match mq m with
-    | [] => (PopNone, m)
-    | [] :: _ => (PopNone, m)      (* excluded by the queue invariant *)
-    | (c0 :: _) as buf :: t =>
+    match Qpeek (mq m) with
+    | None => (PopNone, m)
+    | Some c0 =>
       let '(guard, stop, nl) := simd in
       if use_simd && negb (memb c0 guard) then
         (* data_state_simd_fast_path: scan to the first stop byte, count newlines *)
-        let '(r, s) := span_stop stop buf in
-        (PopRun r, took (lenN r) (upd (fun x => x <| line ::= N.add (count_in r nl) |>) (m <| mq := qpush_front s t |>)))
+        let '(r, q') := Qrun (fun c => memb c stop) (mq m) in
+        (PopRun r, took (lenN r) (upd (fun x => x <| line ::= N.add (count_in r nl) |>) (m <| mq := q' |>)))
       else
-        let '(r, s) := span_out set buf in
+        let '(r, q') := Qrun (in_set set) (mq m) in
         match r with
         | [] =>
-          match s with
-          | c :: s' => match get_preprocessed_char c (took 1 (m <| mq := qpush_front s' t |>)) with
-                       | (None, m') => (PopNone, m') | (Some c', m') => (PopChar c', m') end
-          | [] => (PopNone, m)
+          match Qnext (mq m) with
+          | Some (c, q1) => match get_preprocessed_char c (took 1 (m <| mq := q1 |>)) with
+                            | (None, m') => (PopNone, m') | (Some c', m') => (PopChar c', m') end
+          | None => (PopNone, m)
           end
-        | _ => (PopRun r, took (lenN r) (m <| mq := qpush_front s t |>))
+        | _ => (PopRun r, took (lenN r) (m <| mq := q' |>))
         end
     end.
 
 Definition eat_body (pat : str) (exact_cmp : bool) (m1 : M) : option bool * M :=
   let m2 := upd (fun x => x <| temp_buf := [] |>) (unconsume (temp_buf (mc m1)) m1) in
-  match qeat (negb exact_cmp) pat (mq m2) with
-  | EatTrue => (Some true, took (lenN pat) (m2 <| mq := qdrop (length pat) (mq m2) |>))
+  match Qeat (negb exact_cmp) pat (mq m2) with
+  | EatTrue => (Some true, took (lenN pat) (m2 <| mq := Qdrop (length pat) (mq m2) |>))
   | EatFalse => (Some false, m2)
   | EatNone =>
     if at_eof (mc m2) then (Some false, m2)
-    else (None, took (lenN (qflat (mq m2))) (upd (fun x => x <| temp_buf := qflat (mq m2) |>) (m2 <| mq := [] |>)))
+    else (None, took (lenN (Qflat (mq m2))) (upd (fun x => x <| temp_buf := Qflat (mq m2) |>) (m2 <| mq := Qemp |>)))
   end.
 
 Definition eat (pat : str) (exact_cmp : bool) (m : M) : option bool * M :=
@@ -260,7 +289,7 @@ Definition eat (pat : str) (exact_cmp : bool) (m : M) : option bool * M :=
     | Some c =>
       let m' := if c =? LF then
                   (if f_html fl then discard_char m
-                   else match qnext (mq m) with Some (_, q') => took 1 (m <| mq := q' |>) | None => m end)
+                   else match Qnext (mq m) with Some (_, q') => took 1 (m <| mq := q' |>) | None => m end)
                 else m in
       eat_body pat exact_cmp (upd (fun x => x <| ignore_lf := false |>) m')
     end
@@ -528,7 +557,7 @@ Definition finish_named (cr : crt) (end_char : option N) (m : M) : crres * M :=
 Definition discard_raw (m : M) : M :=
   if f_html fl then discard_char m
   else if reconsume (mc m) then upd (fun x => x <| reconsume := false |>) m
-  else match qnext (mq m) with Some (_, q') => took 1 (m <| mq := q' |>) | None => m end.
+  else match Qnext (mq m) with Some (_, q') => took 1 (m <| mq := q' |>) | None => m end.
 Definition cr_read (m : M) : option N * M :=
   match peek m with None => (None, m) | Some c => (Some c, discard_raw m) end.
 
@@ -643,13 +672,13 @@ Fixpoint run (fuel : nat) (m : M) : M * sres :=
 
 (* Tokenizer::feed *)
 Definition feed (fuel : nat) (m : M) : M * sres :=
-  match mq m with
-  | [] => (m, SSuspend)
-  | _ =>
+  match Qpeek (mq m) with
+  | None => (m, SSuspend)
+  | Some _ =>
     let m1 := if discard_bom (mc m) then
-                match qpeek (mq m) with
+                match Qpeek (mq m) with
                 | Some c =>
-                  let m' := if c =? BOM then match qnext (mq m) with Some (_, q') => took 1 (m <| mq := q' |>) | None => m end else m in
+                  let m' := if c =? BOM then match Qnext (mq m) with Some (_, q') => took 1 (m <| mq := q' |>) | None => m end else m in
                   upd (fun x => x <| discard_bom := false |>) m'     (* only the first character of the stream *)
                 | None => m
                 end
@@ -671,7 +700,7 @@ Fixpoint eof_loop (fuel : nat) (m : M) : M * sres :=
 
 (* Tokenizer::end — works on a FRESH input queue: whatever is still in the caller's queue is not seen *)
 Definition tok_end (fuel : nat) (m : M) : M * sres :=
-  let m0 := m <| mq := [] |> in
+  let m0 := m <| mq := Qemp |> in
   let '(m1, bad) :=
     match cref (mc m0) with
     | None => (m0, false)
@@ -683,9 +712,9 @@ Definition tok_end (fuel : nat) (m : M) : M * sres :=
   let m2 := upd (fun x => x <| at_eof := true |>) m1 in
   match run fuel m2 with
   | (m3, SSuspend) =>
-    match mq m3 with
-    | [] => eof_loop fuel m3
-    | _ => if f_html fl then (m3, SPanic 5) (* assert!(input.is_empty()) *) else eof_loop fuel m3
+    match Qpeek (mq m3) with
+    | None => eof_loop fuel m3
+    | Some _ => if f_html fl then (m3, SPanic 5) (* assert!(input.is_empty()) *) else eof_loop fuel m3
     end
   | (m3, SPanic n) => (m3, SPanic n)
   | (m3, _) => if f_html fl then (m3, SPanic 4) (* assert!(matches!(run, Done)) *) else eof_loop fuel m3
@@ -698,7 +727,7 @@ Fixpoint feed_loop (n : nat) (fuel : nat) (inject : list N) (m : M) (log : list 
   | O => (m, SPanic 96 :: log)
   | Datatypes.S n' =>
     match feed fuel m with
-    | (m', SScript) => feed_loop n' fuel inject (m' <| mq ::= qpush_front inject |>) (SScript :: log)
+    | (m', SScript) => feed_loop n' fuel inject (m' <| mq ::= Qpushf inject |>) (SScript :: log)
     | (m', SEncoding) => feed_loop n' fuel inject m' (SEncoding :: log)
     | (m', r) => (m', r :: log)
     end
@@ -708,11 +737,29 @@ Fixpoint drive (fuel : nat) (inject : list N) (chunks : list (list N)) (m : M) (
   match chunks with
   | [] => let '(m', r) := tok_end fuel m in (m', r :: log)
   | ch :: rest =>
-    let '(m', log') := feed_loop 50 fuel inject (m <| mq ::= (fun q => qpush_back q ch) |>) log in
+    let '(m', log') := feed_loop 50 fuel inject (m <| mq ::= (fun q => Qpushb q ch) |>) log in
     drive fuel inject rest m' log'
   end.
 
 End Interp.
+
+(* ------------------------------------------------------------------ the chunked queue = BufferQueue (C13) *)
+Definition qrun_chunked (stop : N -> bool) (q : queue) : list N * queue :=
+  match q with
+  | [] => ([], [])
+  | buf :: t =>
+    let r := (fix go (b : list N) : list N * list N :=
+                match b with [] => ([], []) | c :: b' => if stop c then ([], b) else let '(r, s) := go b' in (c :: r, s) end) buf in
+    (fst r, qpush_front (snd r) t)
+  end.
+Definition drive_chunked {S} := @drive S queue [] qnext qpeek qpush_front qpush_back qflat qrun_chunked.
+
+(* the flat queue with unit runs: reference semantics of the chunking theorems *)
+Definition fq_next (q : list N) : option (N * list N) := match q with [] => None | c :: t => Some (c, t) end.
+Definition fq_peek (q : list N) : option N := match q with [] => None | c :: _ => Some c end.
+Definition fq_run1 (stop : N -> bool) (q : list N) : list N * list N :=
+  match q with [] => ([], []) | c :: t => if stop c then ([], q) else ([c], t) end.
+Definition drive_flat {S} := @drive S (list N) [] fq_next fq_peek (@app N) (@app N) (fun q => q) fq_run1.
 
 Definition init_cfg {S} (s0 : S) (last : option str) (ex bom : bool) : cfg S :=
   mkcfg s0 false 0 false bom false [] TStartTag [] false false [] [] [] [] None None None false [] [] last None 1 ex.
